@@ -3,19 +3,19 @@ each with per-stack fall-back parts (a stack covfie refuses to compile does not 
 from gen import zoo
 
 
-def make_shards(ctx, stacks, driver_call, tag, flavour="asan-dbg", per_shard=None, primary=True, defines=(), extra_include="zoo_drivers.hpp"):
+def make_shards(ctx, stacks, driver_call, tag, flavour="asan-dbg", per_shard=None, primary=True, defines=(), extra_include="zoo_drivers.hpp", with_partners=False):
     n = len(stacks)
     if per_shard is None:
         per_shard = max(4, (n + 15) // 16)
     shards = []
     for b in range(0, n, per_shard):
         batch = stacks[b:b + per_shard]
-        src = zoo.translation_unit(batch, b, extra_include, driver_call)
+        src = zoo.translation_unit(batch, b, extra_include, driver_call, with_partners=with_partners)
         split = []
         for k, st in enumerate(batch):
             split.append(dict(name="%s/stack%d[%s]/%s" % (tag, b + k, "/".join(l["kind"] for l in st.layers), flavour),
-                              src=zoo.translation_unit([st], b + k, extra_include, driver_call), is_text=True,
-                              flavour=flavour, primary=primary, defines=list(defines)))
+                              src=zoo.translation_unit([st], b + k, extra_include, driver_call, with_partners=with_partners), is_text=True,
+                              flavour=flavour, primary=primary, defines=list(defines), stack=st))
         shards.append(dict(name="%s/batch%d/%s" % (tag, b // per_shard, flavour), src=src, is_text=True, flavour=flavour,
                            primary=primary, split=split, defines=list(defines)))
     return shards
